@@ -514,7 +514,19 @@ func BulkAddRotatedSegmetas(finalSegmetas []*structs.SegMeta, shouldWriteSfm boo
 // remove the segmetas for the specified segkeys.
 //
 // Returns the segbaseDirs for the segkeys that were removed
+// removeSegmetasOfOrg removes the given segkeys, or (when indexName is not empty) all segments of the index
+// indexName of the org orgid, from the segmeta file. It returns the base directories of the removed segments.
+func removeSegmetasOfOrg(segkeysToRemove map[string]struct{}, indexName string, orgid int64) map[string]struct{} {
+	return removeSegmetasHelper(segkeysToRemove, indexName, &orgid)
+}
+
+// removeSegmetas removes the given segkeys, or (when indexName is not empty) all segments of the index
+// indexName whatever org they belong to.
 func removeSegmetas(segkeysToRemove map[string]struct{}, indexName string) map[string]struct{} {
+	return removeSegmetasHelper(segkeysToRemove, indexName, nil)
+}
+
+func removeSegmetasHelper(segkeysToRemove map[string]struct{}, indexName string, orgid *int64) map[string]struct{} {
 	if segkeysToRemove == nil && indexName == "" {
 		return nil
 	}
@@ -555,7 +567,7 @@ func removeSegmetas(segkeysToRemove map[string]struct{}, indexName string) map[s
 		}
 
 		if indexName != "" {
-			if segMetaData.VirtualTableName != indexName {
+			if segMetaData.VirtualTableName != indexName || (orgid != nil && segMetaData.OrgId != *orgid) {
 				preservedSmEntries = append(preservedSmEntries, &segMetaData)
 				continue
 			} else {
